@@ -132,7 +132,10 @@ def r2(ctx):
                 if field == "l1":
                     ok = r == "event.kind.as:OrderBookL1.0"
                 else:
-                    ok = "time: event.time_exchange" in r and "event.kind.as:Trade.0.price" in r
+                    timed = "Timed::Timed{value: FromPrimitive::from_f64(event.kind.as:Trade.0.price).as:Some.0, time: event.time_exchange}"
+                    # the held value is replaced by Some(converted price, event time) - never cleared (a cleared value lets any
+                    # older trade in as "first ever")
+                    ok = r in (timed, "Option::Some{0: %s}" % timed)
                 ctx.check("DefaultInstrumentMarketData::process:%s-source" % field, ok,
                           "stored value and time must come from the event being processed", sites=[e["sp"]], got=r)
     ctx.floor("guarded market-data updates", n, 2)
